@@ -204,12 +204,20 @@ func c01JWTErrClass(err error) string {
 }
 
 // c01RunGoat runs the implementation on a case.
-func c01RunGoat(cs c01Case) (out c01Out) {
+func c01RunGoat(cs c01Case) (out c01Out) { return c01RunGoatWith(cs, nil) }
+
+// c01RunGoatWith: when `fixed` is not nil the key finder hands out this ONE prebuilt sig.SigningKey
+// object for every lookup that resolves (a caller caching its key), instead of building a fresh
+// one per lookup.
+func c01RunGoatWith(cs c01Case, fixed sig.SigningKey) (out c01Out) {
 	finderJWS := jws.FindKeyFunc(func(ctx context.Context, p, u *jws.Header) (sig.SigningKey, error) {
 		alg, kid := c01FinderView(c01HdrOf(p), c01HdrOf(u))
 		a, weak, ref, ok := cs.Finder.resolve(alg, kid)
 		if !ok {
 			return nil, errors.New("no key")
+		}
+		if fixed != nil {
+			return fixed, nil
 		}
 		k, ok := c01GoatSigningKey(a, weak, ref)
 		if !ok {
@@ -449,7 +457,7 @@ func c01DirectEntry(cs c01Case, protText string, hasProt bool, unprot map[string
 	if a == "none" {
 		return false // none with a non-nil key is an invalid key
 	}
-	k := c01Keys()[ref.Idx%len(c01Keys())]
+	k := c01KeyByIdx(ref.Idx)
 	if fam, _ := c01AlgByName(a); fam.Family == "hs" && !cs.Finder.Weak && len(k.Oct) < c01HashSize(fam.Hash) {
 		return false
 	}
@@ -632,8 +640,12 @@ func c01FirstNB64(entries []any) bool {
 
 // ---------------------------------------------------------------------------------------------
 
-func c01Exec(c *vf.Ctx, d *vf.Driver, cs c01Case) {
-	out := c01RunGoat(cs)
+func c01Exec(c *vf.Ctx, d *vf.Driver, cs c01Case) { c01ExecWith(c, d, cs, nil, nil) }
+
+// c01ExecWith: `fixed` as in c01RunGoatWith; `report` (if not nil) replaces the case stored with a
+// violation (a whole key-object history, so that a replay re-runs every call in order).
+func c01ExecWith(c *vf.Ctx, d *vf.Driver, cs c01Case, fixed sig.SigningKey, report any) {
+	out := c01RunGoatWith(cs, fixed)
 	tag, cls, val, err := c01RunModel(d, cs)
 	c.TraceValidated()
 	key := fmt.Sprintf("%s|%x|%x|%v|%v|%v|%v", cs.Kind, cs.Data, cs.Content, cs.HasContent, cs.Allowed, cs.AllowAny, cs.Finder)
@@ -646,8 +658,12 @@ func c01Exec(c *vf.Ctx, d *vf.Driver, cs c01Case) {
 		c.Fail(vf.Violation{Kind: "correspondence", Class: "c01-driver", What: err.Error(), Case: cs})
 		return
 	}
+	var stored any = cs
+	if report != nil {
+		stored = report
+	}
 	fail := func(kind, class, what, obs, req string) {
-		c.Fail(vf.Violation{Kind: kind, Class: class, What: what, Case: cs, Observed: obs, Required: req})
+		c.Fail(vf.Violation{Kind: kind, Class: class, What: what, Case: stored, Observed: obs, Required: req})
 	}
 	gcls := out.Cls
 	modelSummary := tag + " " + cls + " " + val.Render()
@@ -681,11 +697,6 @@ func c01Exec(c *vf.Ctx, d *vf.Driver, cs c01Case) {
 }
 
 func replayC01(c *vf.Ctx, data json.RawMessage) {
-	var cs c01Case
-	if err := json.Unmarshal(data, &cs); err != nil {
-		c.Note("replay: %v", err)
-		return
-	}
 	d, err := vf.StartDriver()
 	if err != nil {
 		c.Fail(vf.Violation{Kind: "correspondence", Class: "driver-start", What: err.Error()})
@@ -694,5 +705,21 @@ func replayC01(c *vf.Ctx, data json.RawMessage) {
 	defer d.Close()
 	restore := jwt.VerifSetNow(func() time.Time { return c01FixedNow })
 	defer restore()
+	var probe struct {
+		Hist string `json:"hist"`
+	}
+	json.Unmarshal(data, &probe)
+	if probe.Hist != "" { // a key-object history: every call again, in order
+		var hc c01HistCase
+		if json.Unmarshal(data, &hc) == nil {
+			c01ExecHist(c, d, hc)
+		}
+		return
+	}
+	var cs c01Case
+	if err := json.Unmarshal(data, &cs); err != nil {
+		c.Note("replay: %v", err)
+		return
+	}
 	c01Exec(c, d, cs)
 }
